@@ -29,13 +29,13 @@ PROPS = {
     "C03": dict(
         title="Offset, DST flag and abbreviation for an instant match the TZ data",
         verus=["tzif", "posix", ("posix", "_static", STATIC)],
-        kani_quick=["c17_tzif"], kani_thorough=[],
+        kani_quick=["c17_tzif", "c03_tzdt"], kani_thorough=[],
         design_ref="DESIGN.md section 4, C03",
     ),
     "C04": dict(
         title="Civil-to-instant resolution finds gaps/folds exactly; strategies as documented",
         verus=["tzif", "posix", "ambig", "zoned"],
-        kani_quick=[], kani_thorough=[],
+        kani_quick=["c03_tzdt"], kani_thorough=[],
         design_ref="DESIGN.md section 4, C04",
     ),
     "C14": dict(
